@@ -559,13 +559,20 @@ def run(ctx):
     except SystemExit:
         ctx.disagree('sanitizer build of the working-tree kernels', {}, 'builds', 'does not build')
         return
+    # the sanitizer corpus first: it runs every kernel in instrumented subprocesses, so an out-of-bounds access is reported with its
+    # input; the twin correspondences below call the kernels of the plain build inside this process and would simply die on
+    # a heap overflow (reported as abnormal termination, without an input).  They are skipped when the corpus already has reports.
+    san_corpus(ctx, asan_dir)
+    if ctx.failures:
+        ctx.notes.append('sanitizer reports on the corpus: the in-process twin correspondences (plain build) were not run')
+        shutil.rmtree(os.path.join(core.VERIF, 'build', 'run', 'c17_single' + core.TAG + '_' + core.RUNID), ignore_errors=True)
+        return
     twin_valid(ctx)
     twin_rs(ctx)
     twin_agg(ctx)
     twin_malformed(ctx, asan_dir)
     twin_bfs(ctx, asan_dir)
     twin_mis(ctx, asan_dir)
-    san_corpus(ctx, asan_dir)
     shutil.rmtree(os.path.join(core.VERIF, 'build', 'run', 'c17_single' + core.TAG + '_' + core.RUNID), ignore_errors=True)
 
 
